@@ -319,3 +319,31 @@ func verifSelfFields() {
 	f := strings.Fields(s)
 	verifAssert(len(f) != 2, "two-fields-exist")
 }
+
+// verifSelfRaceAfterUnlock: an access made AFTER releasing a lock is not ordered with what the
+// next holder of the lock does: the unsynchronised read below races with the other thread's write.
+type selfShared struct {
+	mu sync.Mutex
+	x  int
+}
+
+func verifSelfRaceAfterUnlock() {
+	s := &selfShared{}
+	verifRaceScope(s, "selfShared")
+	var wg sync.WaitGroup
+	wg.Add(2)
+	go func() {
+		defer wg.Done()
+		s.mu.Lock()
+		s.x = 1
+		s.mu.Unlock()
+		_ = s.x // unsynchronised read after the unlock
+	}()
+	go func() {
+		defer wg.Done()
+		s.mu.Lock()
+		s.x = 2
+		s.mu.Unlock()
+	}()
+	wg.Wait()
+}
